@@ -63,7 +63,7 @@ def _any_worker(task):
     if kind == "P":
         return _worker(task[1:])
     if kind == "B":
-        return run_rtcheck(task[1], task[2], None, task[3], task[4], task[5])
+        return run_rtcheck(task[1], task[2], regression_seeds(), task[3], task[4], task[5])
     if kind == "F":
         try:
             prog, reg = _init()
@@ -92,6 +92,22 @@ def functions_for(reg: Registry, pid: str):
             # C15: every function under contract has frame obligations (cells not listed in `modifies` are unchanged),
             # which are part of "no hidden state"; they are discharged by the C15 check for all functions
             out.append(q)
+    return out
+
+
+def regression_seeds():
+    """Committed seed strings for the run-time stand-ins: the witnesses of every defect found so far plus hand-written
+    tricky lines (longer than the enumeration bound reaches)."""
+    out = []
+    try:
+        with open(os.path.join(VERIF, "seeds.json"), encoding="utf8") as f:
+            out = [x for x in json.load(f) if isinstance(x, str)]
+    except Exception:
+        pass
+    for k in load_known():
+        for v in (k.get("witness") or {}).values():
+            if isinstance(v, str) and v not in out:
+                out.append(v)
     return out
 
 
